@@ -31,12 +31,58 @@ type Tree struct {
 	// Light: no reverse index (very tall trees): only ProjectAuth is available, which compares a
 	// signature's authentication path with the true siblings level by level
 	Light bool
+	// Pos: positional tree - every node (leaves included) is PosNode(tag, level, index), supplied to the
+	// library through the leaf and the node seam. Nothing is stored: any height costs nothing here, and a
+	// 32-byte value is projected by decoding it.
+	Pos bool
+	Tag uint64
+}
+
+// PosNode is the value of node <<j,i>> in a positional tree: decodable, distinct per (tag, j, i), never all zero.
+func PosNode(tag uint64, j int, i uint32) []byte {
+	b := make([]byte, 32)
+	binary.BigEndian.PutUint64(b[:8], tag)
+	b[8] = byte(j)
+	binary.BigEndian.PutUint32(b[9:13], i)
+	copy(b[13:17], "node")
+	for k := 17; k < 32; k++ { // filler derived from the position, so that a partly overwritten value does not decode
+		b[k] = b[k-17] ^ b[(k-9)%13] ^ byte(k*37)
+	}
+	return b
+}
+
+// NewPositional: the tree of height h whose nodes are PosNode values.
+func NewPositional(h int, hf xmss.HashFunction, tag uint64) *Tree {
+	return &Tree{H: h, Hf: hf, Pos: true, Tag: tag, Seam: true}
+}
+
+func (t *Tree) decodePos(v []byte) Node {
+	if len(v) != 32 {
+		return Bad
+	}
+	if bytes.Equal(v, zero32[:]) {
+		return Zero
+	}
+	if binary.BigEndian.Uint64(v[:8]) != t.Tag {
+		return Bad
+	}
+	j, i := int(v[8]), binary.BigEndian.Uint32(v[9:13])
+	if j > t.H || uint64(i) >= uint64(1)<<uint(t.H-j) || !bytes.Equal(v, PosNode(t.Tag, j, i)) {
+		return Bad
+	}
+	return Node{j, int(i)}
 }
 
 // ProjectAuth projects the authentication path of a signature made at idx: level j is <<j, sibling>>
 // when its bytes are the true sibling's, Zero when all zero, Bad otherwise.
 func (t *Tree) ProjectAuth(idx uint32, auth []byte) []Node {
 	out := make([]Node, 0, t.H)
+	if t.Pos {
+		for j := 0; j < t.H && 32*(j+1) <= len(auth); j++ {
+			out = append(out, t.decodePos(auth[32*j:32*j+32]))
+		}
+		return out
+	}
 	for j := 0; j < t.H && 32*(j+1) <= len(auth); j++ {
 		v := auth[32*j : 32*j+32]
 		sib := int(idx>>uint(j)) ^ 1
@@ -147,11 +193,19 @@ func RealLeafFn(hf xmss.HashFunction, h int, skSeed, pubSeed []byte) func(i uint
 	}
 }
 
-func (t *Tree) Root() []byte { return t.Levels[t.H][0] }
+func (t *Tree) Root() []byte {
+	if t.Pos {
+		return PosNode(t.Tag, t.H, 0)
+	}
+	return t.Levels[t.H][0]
+}
 
 var zero32 [32]byte
 
 func (t *Tree) Project(v []byte) Node {
+	if t.Pos {
+		return t.decodePos(v)
+	}
 	if len(v) != 32 || t.Light {
 		return Bad
 	}
